@@ -145,6 +145,8 @@ impl crate::qustate::QuState for StabilizerState
                 MeasurementInfo::Random(i) => {
                     let distribution = rand_distr::Binomial::new(count as u64, 0.5).unwrap();
                     let n0 = rng.sample(distribution) as usize;
+                    #[cfg(feature = "verif")]
+                    crate::verif::log_draw(crate::verif::Draw::Binomial { count: count, p: 0.5, n0: n0 });
 
                     if n0 == 0
                     {
@@ -237,6 +239,13 @@ impl crate::qustate::QuState for StabilizerState
                         rng.sample(distribution) as usize
                     }
                 };
+            #[cfg(feature = "verif")]
+            {
+                if let MeasurementInfo::Random(_) = tableau.measure(qbit)
+                {
+                    crate::verif::log_draw(crate::verif::Draw::Binomial { count: count, p: 0.5, n0: n0 });
+                }
+            }
 
             if n0 > 0
             {
@@ -287,6 +296,13 @@ impl crate::qustate::QuState for StabilizerState
                             rng.sample(distribution) as usize
                         }
                     };
+                    #[cfg(feature = "verif")]
+                    {
+                        if let MeasurementInfo::Random(_) = minfo
+                        {
+                            crate::verif::log_draw(crate::verif::Draw::Binomial { count: c, p: 0.5, n0: n0 });
+                        }
+                    }
                     if n0 > 0
                     {
                         new_counts.push((idx, n0));
